@@ -30,6 +30,10 @@ func SendAccountDebitRequest(
 	}
 	// one connection per exchange: release it (and its watchdog) when the exchange is over
 	defer conn.Close()
+	// only the answer arriving on the connection of this exchange is the answer to this request;
+	// it is parked in a buffered channel so that the message dispatcher never blocks
+	answer := make(chan *diam.Message, 1)
+	ue.AbmfMux.Handle("CCA", handleAnswerOf(conn, answer))
 
 	meta, ok := smpeer.FromContext(conn.Context())
 	if !ok {
@@ -53,7 +57,7 @@ func SendAccountDebitRequest(
 	}
 
 	select {
-	case m := <-ue.AcctChan:
+	case m := <-answer:
 		var cca charging_datatype.AccountDebitResponse
 		if errMarshal := m.Unmarshal(&cca); err != nil {
 			return nil, fmt.Errorf("Failed to parse message from %v", errMarshal)
@@ -69,6 +73,25 @@ func HandleCCA(abmfChan chan *diam.Message) diam.HandlerFunc {
 	return func(c diam.Conn, m *diam.Message) {
 		logger.AcctLog.Tracef("Received CCA from %s", c.RemoteAddr())
 
-		abmfChan <- m
+		select {
+		case abmfChan <- m:
+		default:
+			// nobody is waiting for this answer (any more): discard it instead of blocking the dispatcher
+		}
+	}
+}
+
+// handleAnswerOf accepts the answer of one exchange: the message must arrive on the connection the
+// request was sent on; anything else (a late answer of an earlier exchange) is discarded.
+func handleAnswerOf(conn diam.Conn, answer chan *diam.Message) diam.HandlerFunc {
+	return func(c diam.Conn, m *diam.Message) {
+		if c != conn {
+			logger.AcctLog.Tracef("Discard late answer from %s", c.RemoteAddr())
+			return
+		}
+		select {
+		case answer <- m:
+		default:
+		}
 	}
 }
